@@ -9,9 +9,68 @@
 (declare-fun pathBase (String) String)
 (declare-fun pathJoin (String String) String)
 (declare-fun extOK (String) Bool)         ; the path's extension is one of the supported formats
+(declare-fun globRawS (String) SSlice)     ; filepath.Glob(pattern): the matching paths, in Glob's order
+(declare-fun globRawE (String) ErrV)
+(declare-fun evalSymlinksF (String) String) ; filepath.EvalSymlinks(path): the path with links resolved (= path if it is no link)
+(declare-fun evalSymlinksE (String) ErrV)
 (define-fun-rec allDots ((l SLst) (n Int)) Bool
   (ite ((_ is SNil) l) true (and (= (strCount (shd l) ".") n) (allDots (stl l) n))))
 ; the parent named by a file name a.b.c.<ext>: the layer a.b, under any supported extension
 (define-fun parentLayerPath ((p String)) String
   (pathJoin (pathDir p) (strJoin (sltake (strSplit (pathBase p) ".") (- (sllen (strSplit (pathBase p) ".")) 2)) ".")))
 (define-fun-rec rlast ((l RLst)) Int (ite ((_ is RNil) l) 0 (ite ((_ is RNil) (rtl l)) (rhd l) (rlast (rtl l)))))
+; ---- $parent: names, lists, wildcards (the * of "<name>.*" never crosses a dot), false / null
+;   globSel ms n : of Glob's matches, those with exactly n dots (the wildcard did not cross a dot) and a supported extension
+;   globF p      : the layer files named by p: p.<any supported extension>
+(define-fun-rec globSel ((ms SLst) (n Int)) SLst
+  (ite ((_ is SNil) ms) SNil
+       (ite (and (= (strCount (shd ms) ".") n) (extOK (shd ms))) (SCons (shd ms) (globSel (stl ms) n)) (globSel (stl ms) n))))
+(define-fun globF ((p String)) SLst (globSel (sitems (globRawS (str.++ p ".*"))) (strCount (str.++ p ".*") ".")))
+(define-fun globE ((p String)) Bool (isErr (globRawE (str.++ p ".*"))))
+;   absBad dir ps / absList dir ps : the names ps, relative to dir, resolved to files; a name without a file is an error
+(define-fun-rec absBad ((dir String) (ps SLst)) Bool
+  (ite ((_ is SNil) ps) false
+       (or (globE (pathJoin dir (shd ps))) (= (globF (pathJoin dir (shd ps))) SNil) (absBad dir (stl ps)))))
+(define-fun-rec absList ((dir String) (ps SLst)) SLst
+  (ite ((_ is SNil) ps) SNil (sapp (globF (pathJoin dir (shd ps))) (absList dir (stl ps)))))
+;   the $parent entries of a file's documents (h: Document.Data of every document, ds: the file's documents in order):
+;   dirStrs: the names given (a string, or a list of strings), dirNo: some document says false / null,
+;   dirBad: some document says true, or gives a list with a non-string
+(define-fun dpVal ((v Val)) Val (ite ((_ is VMap) v) (select (mc v) "$parent") VAbsent))
+(define-fun-rec dirStrs ((h (Array Int Val)) (ds RLst)) SLst
+  (ite ((_ is RNil) ds) SNil
+       (ite ((_ is VStr) (dpVal (select h (rhd ds)))) (SCons (sv (dpVal (select h (rhd ds)))) (dirStrs h (rtl ds)))
+       (ite ((_ is VList) (dpVal (select h (rhd ds)))) (sapp (toSL (ls (dpVal (select h (rhd ds))))) (dirStrs h (rtl ds)))
+            (dirStrs h (rtl ds))))))
+(define-fun-rec dirNo ((h (Array Int Val)) (ds RLst)) Bool
+  (ite ((_ is RNil) ds) false
+       (or (= (dpVal (select h (rhd ds))) (VBool false)) (= (dpVal (select h (rhd ds))) VNil) (dirNo h (rtl ds)))))
+(define-fun-rec dirBad ((h (Array Int Val)) (ds RLst)) Bool
+  (ite ((_ is RNil) ds) false
+       (or (= (dpVal (select h (rhd ds))) (VBool true))
+           (and ((_ is VList) (dpVal (select h (rhd ds)))) (not (allStr (ls (dpVal (select h (rhd ds)))))))
+           (dirBad h (rtl ds)))))
+;   fnE / fnS: the parent given by the file name a.b.c.<ext> (the layer a.b), none for a.<ext> and for stdin
+(define-fun fnParts ((p String)) Int (sllen (strSplit (pathBase p) ".")))
+(define-fun fnE ((p String)) Bool
+  (and (not (isStdinF p)) (or (< (fnParts p) 2) (and (> (fnParts p) 2) (= (findFileF (parentLayerPath p)) "")))))
+(define-fun fnS ((p String)) SSlice
+  (ite (or (isStdinF p) (= (fnParts p) 2)) (Slice SNil) (Slice (SCons (findFileF (parentLayerPath p)) SNil))))
+; ---- which layers a file inherits from: its $parent directives win, then (for a symbolic link) the name of the link's
+;      target, then its own name. SliceNil = "this rule does not apply"; an empty list = "no parents".
+(define-fun dirE ((h (Array Int Val)) (ds RLst) (dir String)) Bool
+  (or (dirBad h ds)
+      (and (dirNo h ds) (not (= (dirStrs h ds) SNil)))
+      (and (not (dirNo h ds)) (absBad dir (dirStrs h ds)))))
+(define-fun dirS ((h (Array Int Val)) (ds RLst) (dir String)) SSlice
+  (ite (dirNo h ds) (Slice SNil) (ite (= (dirStrs h ds) SNil) SliceNil (Slice (absList dir (dirStrs h ds))))))
+(define-fun symE ((p String)) Bool
+  (and (not (isStdinF p)) (or (isErr (evalSymlinksE p)) (and (not (= (evalSymlinksF p) p)) (fnE (evalSymlinksF p))))))
+(define-fun symS ((p String)) SSlice
+  (ite (or (isStdinF p) (= (evalSymlinksF p) p)) SliceNil (fnS (evalSymlinksF p))))
+(define-fun parentsE ((h (Array Int Val)) (ds RLst) (p String)) Bool
+  (or (dirE h ds (pathDir p))
+      (and (= (dirS h ds (pathDir p)) SliceNil) (or (symE p) (and (= (symS p) SliceNil) (fnE p))))))
+(define-fun parentsS ((h (Array Int Val)) (ds RLst) (p String)) SSlice
+  (ite (not (= (dirS h ds (pathDir p)) SliceNil)) (dirS h ds (pathDir p))
+  (ite (not (= (symS p) SliceNil)) (symS p) (fnS p))))
